@@ -27,6 +27,12 @@ def mutants():
         for a, b in (('<=', '<'), ('>=', '>'), (' < ', ' <= '), (' > ', ' >= '), ('==', '!='), ('!=', '=='), ('&&', '||'), ('||', '&&')):
             if a in l and 'template' not in l and '#include' not in l and '<<' not in l and '>>' not in l and '->' not in l:
                 yield i, '%s->%s' % (a.strip(), b.strip()), l.replace(a, b, 1)
+        for m in re.finditer(r'(<<|>>) (\d+)\b', l):
+            if 'stream' not in l and 'cout' not in l and 'template' not in l:
+                yield i, 'shift+1', l[:m.start(2)] + str(int(m.group(2)) + 1) + l[m.end(2):]
+        for m in re.finditer(r'& (0x[0-9A-Fa-f]{1,2})\b', l):
+            v = int(m.group(1), 16)
+            yield i, 'mask>>1', l[:m.start(1)] + hex(v >> 1) + l[m.end(1):]
         m = re.search(r'([+\-] )([1-9])\b', l)
         if m and 'case' not in l:
             yield i, 'const+1', l[:m.start(2)] + str(int(m.group(2)) + 1) + l[m.end(2):]
